@@ -279,6 +279,13 @@ func init() {
 		for i := 0; i < 1000; i++ {
 			a := randSlice(rng, 20, 9)
 			r.call(hop("Chunk", "", []int{1 + rng.Intn(25)}, a))
+			if i%50 == 0 { // counts at the limits of int
+				for _, x := range xints {
+					r.call(hop("Drop", "", []int{x}, a))
+				}
+				r.call(hop("Chunk", "", []int{2000000000}, a))
+				r.call(hop("Chunk", "", []int{2000000001}, a))
+			}
 			r.call(hop("Drop", "", []int{rng.Intn(50) - 25}, a))
 			p := preds[rng.Intn(len(preds))]
 			r.call(hop("Partition", p, nil, a))
